@@ -209,6 +209,11 @@ class FunctorPool:
                 self.run_event.wait()
 
             self.pool._sending_work = False
+            # the consumer may be blocked waiting for a result that will never come: wake it up
+            try:
+                self.pool._results_queue.put(None, block=False)
+            except queue.Full:
+                pass  # there is something to read, the consumer is not blocked on an empty queue
 
     def __init__(self, workers: List[BaseFunctorWorker[T, R]], context: Optional[BaseContext] = None,
                  work_queue_maxsize: Optional[Union[int, float]] = 1.0,
@@ -307,20 +312,28 @@ class FunctorPool:
         if self._results_queue.qsize() > 0:
             chunks = []
             indexes = []
+            woken = False
 
             with self._results_queue_lock:
                 try:
                     while self._results_queue.qsize() > 0:
-                        res_i, res_chunk = self._results_queue.get(block=False)
+                        res = self._results_queue.get(block=False)
+                        if res is None:
+                            woken = True  # wake-up token: sending of work has ended
+                            continue
+                        res_i, res_chunk = res
                         chunks.append(res_chunk)
                         indexes.append(res_i)
                 except queue.Empty:
                     ...
 
-            if len(chunks) > 0:
+            if len(chunks) > 0 or woken:
                 return indexes, chunks
 
-        res_i, res_chunk = self._results_queue.get()
+        res = self._results_queue.get()
+        if res is None:
+            return [], []  # wake-up token: sending of work has ended
+        res_i, res_chunk = res
         return [res_i], [res_chunk]
 
     def imap(self, data: Iterable[T], chunk_size: int = 1) -> Generator[R, None, None]:
